@@ -391,6 +391,18 @@ def monitor_scripted(rep, case, log, res):
     if res[0] == 'runaway':
         return False     # scripts always end in errors, so a runaway cannot happen; nothing to judge
     replies = case.get('_replies') or []
+    exp = case.get('expect')
+    flag = case.get('flag')
+    flag_raises = isinstance(flag, int) and not isinstance(flag, bool) and flag != 0   # use_regex.lower() on an int
+    if exp is not None and not flag_raises:
+        got = res[1] if res[0] == 'ok' else None
+        if got != exp['ids'] or len(log) != exp['requests']:
+            rep.violation('C20/healthy-script-listing',
+                          'server replied %s (a complete listing of %d item(s) in %d page(s)); the call made %d request(s) and gave %s (%s)' % (
+                              ';'.join(script_token(tuple(s)) for s in case['script'])[:80], len(exp['ids']), exp['requests'],
+                              len(log), canon_res(res)[:80], case['op']),
+                          {k: v for k, v in case.items() if not k.startswith('_')})
+            return True
     for i, st in enumerate(replies[:-1]):
         if st >= 400:
             rep.violation('C20/request-after-error', 'request %d was answered %d, yet %d more request(s) followed (%s)' % (
@@ -555,7 +567,11 @@ def make_script_case(rng, shape):
     case = {'op': op, 'n': m, 'prefix': 'q', 'script': sc, 'fault': fault, 'page_size': p}
     if show_all:
         case['show_all'] = True
-    if rng.random() < 0.15:
+    if fault == 'none' or (fault == 'no-page' and at == 0 and len(sc) == 1):
+        # still a correct paginated listing (a first reply without `page` means page 1): the whole
+        # listing must come back with one request per page
+        case['expect'] = {'ids': list(range(m)), 'requests': len(sc)}
+    elif rng.random() < 0.15:
         case['page_size'] = None
     if rng.random() < 0.3:
         case['name'] = rand_text(rng)
